@@ -1067,6 +1067,24 @@ class OP4:
         ind[:, 1] += 1
         return ind
 
+    @staticmethod
+    def _split_strings(ind, maxlen):
+        """
+        Splits each sequence of `ind` (see :func:`_sparse_col_stats`)
+        that is longer than `maxlen` into consecutive sequences of at
+        most `maxlen` rows.
+        """
+        if ind[:, 1].max() <= maxlen:
+            return ind
+        return np.array(
+            [
+                (r0 + k, min(maxlen, r1 - k))
+                for r0, r1 in ind
+                for k in range(0, r1, maxlen)
+            ],
+            int,
+        )
+
     # @staticmethod
     # def _is_symmetric(m, tol=1e-12):
     #     """
@@ -1556,6 +1574,7 @@ class OP4:
         colTrailer,
         LrStruct,
         endian,
+        maxlen=None,
     ):
         if isinstance(matrix, np.ndarray):
             for c in range(cols):
@@ -1563,6 +1582,8 @@ class OP4:
                 if np.any(v):
                     v = np.asarray(v).ravel()
                     ind = OP4._sparse_col_stats(v.nonzero()[0])
+                    if maxlen:
+                        ind = OP4._split_strings(ind, maxlen)
                     reclen = _write_col_header(f, ind, c, multiplier, colHeader)
                     for r0, r1 in ind:
                         string = v[r0 : r0 + r1]
@@ -1577,6 +1598,8 @@ class OP4:
             for c in cols_with_data:
                 pv = (cs == c).nonzero()[0]  # find data for column c
                 ind = OP4._sparse_col_stats(rs[pv])
+                if maxlen:
+                    ind = OP4._split_strings(ind, maxlen)
                 reclen = _write_col_header(f, ind, c, multiplier, colHeader)
                 coldata = vs[pv]
                 j = 0
@@ -1653,6 +1676,9 @@ class OP4:
             colTrailer,
             colTrailer,
             endian,
+            # IS is a 32-bit integer: L + 1 = 2 * r1 * multiplier + 1
+            # has to be less than 32768
+            maxlen=16383 // multiplier,
         )
 
     def _write_binary_bigmat(self, f, name, matrix, endian, form):
